@@ -1116,6 +1116,7 @@ int __wrap_connect(int fd, const struct sockaddr* addr, socklen_t len)
     s->connecting = true;
     s->stats_idx = new_stream_stats(fd);
     k.sstats[static_cast<size_t>(s->stats_idx)].conn_id = c->id;
+    k.sstats[static_cast<size_t>(s->stats_idx)].port = port;
     c->e[0].file = s;
     i64 lat = c->d[0].np.latency_ns;
     std::weak_ptr<Conn> wc = c;
